@@ -2,6 +2,7 @@
 between control/nlsys.py and the Lean model `CtrlVerif.Model.{IOSys,IOSysDyn}` (driver family
 `io`).  The maps executed by the driver are the typed definitions the theorems of
 Props/C08.lean are about."""
+import json
 import re
 from fractions import Fraction
 
@@ -1536,6 +1537,20 @@ class C08(Family):
             if v.status != AGREE:
                 feat = dict(v.features or {})
                 feat.update({"op": "ahist", "call": st["kind"], "history": "after-calls" if j else "first-call"})
+                # diagnosis of one mechanism that lives in SciPy (MINPACK hybr): started from a warm-start
+                # guess whose non-zero entries are of subnormal-like size (left-overs such as 1e-31 of an
+                # earlier solve), the forward-difference steps are relative to |x|, the estimated Jacobian
+                # vanishes and `root` reports convergence AT the guess with a residual of order one.
+                # Recognised only when the returned states are bit-for-bit the warm-start guess, the guess
+                # has a non-zero entry below 1e-20 and none above it; anything else stays a plain violation.
+                if st["kind"] == "op" and str(feat.get("kind", "")).startswith("op-") and \
+                        self.is_ref(st.get("X0")) and st["X0"][0] == "W":
+                    src = impl["steps"][st["X0"][1]].get("ok", {})
+                    got = impl["steps"][j].get("ok", {})
+                    gx = [abs(Fraction(q)) for q in src.get("x", [])]
+                    if gx and src.get("x") == got.get("x") and any(0 < q < Fraction(1, 10 ** 20) for q in gx) \
+                            and all(q < Fraction(1, 10 ** 20) for q in gx):
+                        feat["cause"] = "root-stalls-at-tiny-warm-start"
                 return Verdict(v.status, "call %d of %d (%s, after %s): %s" % (
                     j + 1, len(steps), st["kind"], ", ".join(b["kind"] for b in steps[:j]) or "no other call",
                     v.detail), feat)
@@ -1770,6 +1785,8 @@ class C08(Family):
                        {"kind": "lin", "t": "0", "X0": ["R", "x"], "U0": ["R", "u"], "via": "method", "params": {}},
                        {"kind": "resp", "T": ["0", "1", "2", "3"], "teval": None, "U": ["R", "U"], "X0": ["R", "x"],
                         "params": {}}]},
+            # thorough seed 10: a warm start from rounding left-overs (known finding C08-root-stalls-at-tiny-warm-start)
+            json.loads('{"kind": "ahist", "sys": ["P", 2, 2, 2, "C", {}, [[["-2", [["x0", 1]]]], [["-1", [["x0", 1]]]]], [[["1", [["x1", 1]]], ["2", [["x0", 1]]], ["3", [["u0", 1]]]], [["3", [["u0", 1]]]]]], "pool": {"x": ["A", ["2", "-3"]], "u": ["AI", ["-1", "-2"]], "y": ["L", ["3", "-2"]]}, "steps": [{"kind": "op", "t": "1", "X0": ["R", "x"], "U0": ["R", "u"], "iu": [0, 1], "iy": [0], "ix": null, "idx": [0], "params": {}, "Y0": ["L", [["s", "-3"], ["s", "1"]]], "dx0": null}, {"kind": "op", "t": "0", "X0": ["W", 0, "x", ["A", ["2", "-3"]]], "U0": ["R", "u"], "iu": [0, 1], "iy": [0], "ix": null, "idx": [0], "params": {}, "Y0": ["R", "y"], "dx0": null}]}'),
         ]
 
     # ---- execution ----------------------------------------------------------
